@@ -2,7 +2,8 @@
 
 Lean: Model/Pattern.lean, PatternIP.lean, KnownHosts.lean, AuthKeys.lean; Props/C17.lean
 (glob_iff_spec, patlist_iff_spec, cidr_iff_spec, lookup_iff_spec, lookup_order_independent, exact_index_sound_partial,
-port_fallback, bad_line_skipped_partial, tokenizer_roundtrip, validate_iff_spec, ...).
+port_fallback, port_revocations_kept, bad_line_skipped, ak_bad_line_skipped, tokenizer_roundtrip, validate_iff_spec, ...;
+witnesses of the repaired defects about matchEntriesOld / matchHostsOld / certAuthorityCheckOld / raising importers).
 Correspondence: the Lean driver against the real pattern classes, misc.ip_address/ip_network, binascii,
 match_known_hosts / import_known_hosts and import_authorized_keys(...).validate(...) on generated files.
 Oracle: an independent Python reference written from sshd(8)/OpenSSH rules (and ssh-keygen -F) against the real
@@ -35,11 +36,12 @@ MANIFEST = {
             '(patlist_iff_spec, negated_match_excludes); CIDR containment equals top-prefix-bit equality '
             '(cidr_iff_spec); known_hosts lookups return exactly the entries of the selected lines for every file, '
             'host, address and port, independent of line order (lookup_iff_spec, lookup_order_independent, '
-            'port_fallback, exact_index_sound_partial); a line whose key gives KeyImportError contributes nothing and '
-            'changes nothing else (bad_line_skipped_partial) while any other importer exception aborts the file '
-            '(bad_line_other_exception_aborts: defect F14); the option tokenizer inverts OpenSSH quoting '
-            '(tokenizer_roundtrip) and validate returns the first entry whose key and all restrictions match '
-            '(validate_iff_spec). The model is tied to the code by a differential run on generated trust files, '
+            'port_fallback, port_revocations_kept, exact_index_sound_partial); a line whose key cannot be parsed '
+            'contributes nothing and changes nothing else (bad_line_skipped, ak_bad_line_skipped, '
+            'ak_cert_authority_openssh_cert_skipped, for importers that fail with KeyImportError only - checked on '
+            'every data field); the behaviour before the four fix: commits is kept as witness theorems about the '
+            'pre-fix functions; the option tokenizer inverts OpenSSH quoting (tokenizer_roundtrip) and validate '
+            'returns the first entry whose key and all restrictions match (validate_iff_spec). The model is tied to the code by a differential run on generated trust files, '
             'lookups and option strings, and the property is evaluated on the real code against an independent '
             'reference and ssh-keygen -F.',
     'note': 'key import, HMAC-SHA1 and X.509 subject matching are parameters of the model (instantiated from the real '
@@ -546,8 +548,11 @@ def gen_ak_file(rng: Any, wild: bool, hard_damage: bool) -> Tuple[str, List[Tupl
             data = G.damaged_key(rng.choice(G.DAMAGE_SOFT), rng)
         elif r < 0.10 and hard_damage:
             data = G.damaged_key(rng.choice(G.DAMAGE_HARD), rng)
-        elif r < 0.11 and hard_damage:
+        elif r < 0.12 and hard_damage:
             data = G.openssh_cert_line()
+            if rng.random() < 0.6:
+                lines.append(rng.choice(['cert-authority ', 'cert-authority,no-pty ', 'no-pty,cert-authority\t']) + data)
+                continue
         if rng.random() < 0.2:
             lines.append(data)
         else:
@@ -638,6 +643,15 @@ def correspondence(ctx: Ctx) -> CorrResult:
         if mod != impl:
             res.disagreements.append(Disagreement(case={'op': name, **case}, model=mod, impl=impl,
                                                   name=f'correspondence:{name}'))
+    # hypothesis `OnlyImportErrors` of bad_line_skipped / ak_bad_line_skipped: on every data field handed to
+    # them the real importers either return an object or raise KeyImportError
+    for data, outcome in sorted(G._IMP_CACHE.items()):
+        res.cases += 1
+        raising = [o for o in outcome if o.startswith('X')]
+        hist.hit('importer:' + ('raises' if raising else 'ok-or-KeyImportError'))
+        if raising:
+            res.disagreements.append(Disagreement(case={'op': 'importer', 'data': data}, model='KeyImportError',
+                                                  impl=raising[0][1:], name='correspondence:importer-raises'))
     res.histogram = dict(hist)
     res.samples = [first, {'line': bt.lines[-1][:200], 'model': out[-1], 'impl': bt.expect[-1][2] if bt.expect[-1] else ''}]
     res.rule = ('seeded: glob pattern/string pairs over an alphabet with * ? [ ] ! \\ and non-ASCII; pattern lists with '
@@ -693,7 +707,8 @@ def ref_elem(e: str, names: Sequence[str], ip: Any, fold: bool) -> bool:
     return any(ref_glob(e, n) for n in names if n)
 
 
-def ref_selects(ln: Dict[str, Any], names: Sequence[str], ip: Any, fold: bool, empty_ok: bool = False) -> bool:
+def ref_selects(ln: Dict[str, Any], names: Sequence[str], ip: Any, fold: bool, empty_ok: bool = False,
+                hashed_empty_ok: bool = False) -> bool:
     import hashlib
     import hmac as hmaclib
     if empty_ok and not ln.get('hashed') and '' in ln['elems'] and '' in names and \
@@ -701,7 +716,7 @@ def ref_selects(ln: Dict[str, Any], names: Sequence[str], ip: Any, fold: bool, e
         return True          # variant used only to classify a mismatch (see kh_signatures)
     if ln.get('hashed'):
         salt, dig = bytes.fromhex(ln['hashed'][0]), bytes.fromhex(ln['hashed'][1])
-        return any(hmaclib.new(salt, n.encode(), hashlib.sha1).digest() == dig for n in names if n)
+        return any(hmaclib.new(salt, n.encode(), hashlib.sha1).digest() == dig for n in names if n or hashed_empty_ok)
     pos = neg = False
     for e in ln['elems']:
         if e.startswith('!'):
@@ -712,7 +727,8 @@ def ref_selects(ln: Dict[str, Any], names: Sequence[str], ip: Any, fold: bool, e
 
 
 def ref_lookup(lines: Sequence[Dict[str, Any]], host: str, addr: str, port: Optional[int], fold: bool = True,
-               keep_port_revoked: bool = True, empty_ok: bool = False) -> Tuple[Set[str], Set[str], Set[str]]:
+               keep_port_revoked: bool = True, empty_ok: bool = False,
+               hashed_empty_ok: bool = False) -> Tuple[Set[str], Set[str], Set[str]]:
     """(host keys, CA keys, revoked keys) as sets of key blobs"""
     ip = ref_ip(addr) if addr else ref_ip(host)
 
@@ -721,7 +737,7 @@ def ref_lookup(lines: Sequence[Dict[str, Any]], host: str, addr: str, port: Opti
         ca: Set[str] = set()
         rk: Set[str] = set()
         for ln in lines:
-            if ln.get('blob') and ref_selects(ln, names, ip, fold, empty_ok):
+            if ln.get('blob') and ref_selects(ln, names, ip, fold, empty_ok, hashed_empty_ok):
                 {'': hk, '@cert-authority': ca, '@revoked': rk}[ln['marker']].add(ln['blob'])
         return hk, ca, rk
     if port:
@@ -833,7 +849,10 @@ def corpus_lines(spec: Sequence[Tuple[str, str, Any]], rng: Any) -> List[Dict[st
 
 
 DEVIATIONS = [('hostname-case-sensitive', 'fold', False), ('port-fallback-drops-revoked', 'keep_port_revoked', False),
-              ('empty-pattern-matches-empty-name', 'empty_ok', True)]
+              ('empty-pattern-matches-empty-name', 'empty_ok', True),
+              # a hashed line whose hash is HMAC(salt, '') (never written by OpenSSH) matches a lookup with an empty
+              # address text: only reachable through hand-made lines, classified so that it is named if it shows up
+              ('hashed-empty-name-matches-empty-address', 'hashed_empty_ok', True)]
 
 
 def kh_signatures(lines: Sequence[Dict[str, Any]], host: str, addr: str, port: Optional[int],
@@ -843,7 +862,7 @@ def kh_signatures(lines: Sequence[Dict[str, Any]], host: str, addr: str, port: O
     import itertools
     for n in (1, 2, 3):
         for combo in itertools.combinations(DEVIATIONS, n):
-            kw = {'fold': True, 'keep_port_revoked': True, 'empty_ok': False}
+            kw = {'fold': True, 'keep_port_revoked': True, 'empty_ok': False, 'hashed_empty_ok': False}
             for _sig, flag, val in combo:
                 kw[flag] = val
             if got == ref_lookup(lines, host, addr, port, **kw):
@@ -1354,18 +1373,22 @@ def parse_plain_kh(text: str) -> List[Dict[str, Any]]:
     """structure of a simply formatted known_hosts text (replays and suspects)"""
     import base64
     lines = []
-    for raw in text.split('\n'):
-        raw = raw.strip(' \t')
+    for raw in text.splitlines():
+        raw = raw.strip()
         if not raw or raw.startswith('#'):
             continue
         marker = ''
         if raw.startswith('@'):
-            marker, _, raw = raw.partition(' ')
-            marker = marker.strip()
-        parts = raw.split(None, 1)
-        if len(parts) < 2:
-            continue
-        field, data = parts[0], parts[1]
+            parts = raw.split(None, 2)
+            if len(parts) < 3 or parts[0] not in ('@cert-authority', '@revoked'):
+                continue
+            marker, field, data = parts
+        else:
+            parts = raw.split(None, 1)
+            if len(parts) < 2:
+                continue
+            field, data = parts
+        data = data.strip()
         ln: Dict[str, Any] = {'marker': marker, 'field': field, 'data': data, 'elems': field.split(',')}
         if field.startswith('|'):
             _e, _m, salt, dig = field.split('|')
